@@ -111,7 +111,9 @@ fn domain_isolation<const N1: usize, const N2: usize, const NN: usize>(only_rela
 /// The same statements with the file name written down directly (`<prefix><name>.s`, which is what
 /// `c19_path_for_shape` shows `path_for` to produce) instead of going through `path_for` and
 /// `FilePath::file_name`: one call of the real `extract_name_from_file` per domain.
-fn cross_domain_direct<const N1: usize, const N2: usize, const NN: usize>(only_related: bool) {
+/// MODE 0: all three statements; 1: only the prefix-of-prefix class (F-C19-1); 2: only the foreign-prefix call
+fn cross_domain_direct<const N1: usize, const N2: usize, const NN: usize, const MODE: u8>() {
+    let only_related = MODE == 1;
     let (p1, n1) = any_fragment(N1);
     let (p2, n2) = any_fragment(N2);
     let (nm, nn) = any_fragment(NN);
@@ -136,6 +138,13 @@ fn cross_domain_direct<const N1: usize, const N2: usize, const NN: usize>(only_r
     let cfg2 = mk_cfg(&p2[..n2], b".s", b"/r");
     if only_related {
         assert!(cfg2.extract_name_from_file(&file).is_none(), "c19: a domain whose prefix is a prefix of (or extends) another domain's prefix sees that domain's file");
+        return;
+    }
+    if MODE == 2 {
+        // quick tier: the one call that is the isolation statement itself
+        kani::assume(!related);
+        assert!(cfg2.extract_name_from_file(&file).is_none(), "c19: a foreign domain (unrelated prefix) sees this file");
+        kani::cover!(p1[0] == p2[0], "prefixes that share their first byte");
         return;
     }
     let cfg1 = mk_cfg(&p1[..n1], b".s", b"/r");
@@ -212,9 +221,10 @@ proof!(12, fn c19_root_direct_nested() { root_direct::<1>(); });
 proof!(12, fn c19_root_direct_sibling() { root_direct::<2>(); });
 proof!(12, fn c19_root_direct_same_spelling() { root_direct::<3>(); });
 
-proof!(12, fn c19_cross_domain_direct() { cross_domain_direct::<2, 2, 2>(false); canaries(); });
-proof!(12, fn c19_cross_domain_direct_mixed_len() { cross_domain_direct::<1, 2, 2>(false); canaries(); });
-proof!(12, fn c19_cross_domain_direct_prefix_of_prefix() { cross_domain_direct::<1, 2, 2>(true); });
+proof!(12, fn c19_foreign_prefix_direct() { cross_domain_direct::<2, 2, 2, 2>(); canaries(); });
+proof!(12, fn c19_cross_domain_direct() { cross_domain_direct::<2, 2, 2, 0>(); canaries(); });
+proof!(12, fn c19_cross_domain_direct_mixed_len() { cross_domain_direct::<1, 2, 2, 0>(); canaries(); });
+proof!(12, fn c19_cross_domain_direct_prefix_of_prefix() { cross_domain_direct::<1, 2, 2, 1>(); });
 
 proof!(12, fn c19_domain_isolation() { domain_isolation::<2, 2, 2>(false); canaries(); });
 proof!(12, fn c19_domain_isolation_mixed_len() { domain_isolation::<1, 2, 2>(false); canaries(); });
